@@ -74,9 +74,13 @@ func (w *Weekly) Contains(t time.Time) (ok bool) {
 	// Calculate the offset of the day range.
 	//
 	// NOTE: Do not use [time.Truncate] since it requires UTC time zone.
-	y, m, d := t.Date()
-	day := time.Date(y, m, d, 0, 0, 0, 0, w.location)
-	offset := t.Sub(day)
+	// Use the wall-clock time of day as opposed to the time elapsed since the
+	// local midnight, since those differ on the days of DST transitions.
+	h, m, s := t.Clock()
+	offset := time.Duration(h)*time.Hour +
+		time.Duration(m)*time.Minute +
+		time.Duration(s)*time.Second +
+		time.Duration(t.Nanosecond())
 
 	return dr.contains(offset)
 }
